@@ -25,6 +25,7 @@ import (
 	"istio.io/istio/pilot/pkg/model"
 	"istio.io/istio/pilot/pkg/model/credentials"
 	securitymodel "istio.io/istio/pilot/pkg/security/model"
+	"istio.io/istio/pkg/cluster"
 	"istio.io/istio/pkg/spiffe"
 	"istio.io/istio/pkg/util/sets"
 	"istio.io/istio/pkg/verif"
@@ -277,7 +278,7 @@ func ctFilterAuthorizedResources(resources []SecretResource, proxy *model.Proxy,
 func invFilterAuthorizedResources(resources, allowedResources []SecretResource, proxy *model.Proxy, secrets credscontroller.Controller, authzResult *bool, rangeindex int) bool {
 	return rangeindex < len(resources) &&
 		(authzResult == nil || *authzResult == (secrets.Authorize(proxy.VerifiedIdentity.ServiceAccount, proxy.VerifiedIdentity.Namespace) == nil)) &&
-		(len(allowedResources) == 0 || verif.Fresh(allowedResources)) &&
+		verif.Fresh(allowedResources) &&
 		allPermittedFrom(allowedResources, resources, rangeindex+1, proxy, secrets)
 }
 
@@ -375,4 +376,99 @@ func invDWRUnsubscribe(existing, res sets.String, request *discovery.DeltaDiscov
 		}) || verif.Exists(func(x string) bool {
 			return inStrings(unsub, rangeindex+1, x) && dwrAsked(existing, request, x)
 		}))
+}
+
+// The response cache and the secret controllers are reached through interfaces. What they return is
+// not decided here; they are trusted not to modify the proxy or the list of requested resources.
+//
+//verif:pure-method istio.io/istio/pilot/pkg/model.XdsCache.Get
+//verif:pure-method istio.io/istio/pilot/pkg/model.XdsCache.Add
+
+// A cluster lookup yields a controller or an error.
+//
+//verif:iface-contract istio.io/istio/pilot/pkg/credentials.MulticlusterController.ForCluster
+func ctForCluster(m credscontroller.MulticlusterController, id cluster.ID) {
+	c, err := m.ForCluster(id)
+	verif.Ensures("controller-or-error", c != nil || err != nil)
+}
+
+// generate fetches key material for one resource. Its only obligation towards C11 is on its callers:
+// it may be asked only for a resource this proxy is permitted to receive.
+//
+//verif:contract (*SecretGen).generate
+//verif:prop C11
+//verif:nosafety
+//verif:writes-nothing
+func ctSecretGenGenerate(s *SecretGen, sr SecretResource, configClusterSecrets, proxyClusterSecrets credscontroller.Controller, proxy *model.Proxy) {
+	verif.Requires("resource-is-permitted-for-this-proxy", proxy != nil && proxy.VerifiedIdentity != nil && permitted(sr, proxy, proxyClusterSecrets))
+	s.generate(sr, configClusterSecrets, proxyClusterSecrets, proxy)
+}
+
+// from the statement: "independently of what other proxies requested before or what the cache holds":
+// the cache is consulted only for resources this proxy is permitted to receive.
+//
+//verif:call-assert (*SecretGen).Generate Get 0
+func caCacheLookupIsAuthorised(arg0 model.XdsCacheEntry, proxy *model.Proxy, proxyClusterSecrets credscontroller.Controller) bool {
+	sr, ok := arg0.(SecretResource)
+	return ok && proxy.VerifiedIdentity != nil && permitted(sr, proxy, proxyClusterSecrets)
+}
+
+//verif:contract (*SecretGen).Generate
+//verif:prop C11
+func ctSecretGenGenerateAll(s *SecretGen, proxy *model.Proxy, w *model.WatchedResource, req *model.PushRequest) {
+	verif.Requires("generator-and-inputs-present", s != nil && proxy != nil && proxy.Metadata != nil && w != nil && s.secrets != nil && s.cache != nil)
+	res, _, _ := s.Generate(proxy, w, req)
+	// from the statement: "never to an unauthenticated stream"
+	verif.Ensures("unverified-proxy-gets-nothing", verif.Old(func() bool { return proxy.VerifiedIdentity != nil }) || len(res) == 0)
+}
+
+//verif:invariant (*SecretGen).Generate 1
+func invSecretGenGenerate(resources []SecretResource, proxy *model.Proxy, proxyClusterSecrets credscontroller.Controller, rangeindex int) bool {
+	return rangeindex < len(resources) && proxy.VerifiedIdentity != nil &&
+		verif.Forall(func(j int) bool {
+			return !(0 <= j && j < len(resources)) || permitted(resources[j], proxy, proxyClusterSecrets)
+		})
+}
+
+// from the statement: "resource name parsing binds namespace to verified identity": the namespace an
+// implicit reference resolves to is the verified one, never one the proxy merely claims.
+//
+//verif:call-assert (*SecretGen).parseResources ParseResourceName 0
+func caImplicitNamespaceIsTheVerifiedOne(arg1 string, proxy *model.Proxy) bool {
+	return proxy.VerifiedIdentity != nil && arg1 == proxy.VerifiedIdentity.Namespace
+}
+
+//verif:contract (*SecretGen).parseResources
+//verif:prop C11
+func ctParseResources(s *SecretGen, names []string, proxy *model.Proxy) {
+	verif.Requires("verified-proxy", s != nil && proxy != nil && proxy.Metadata != nil && proxy.VerifiedIdentity != nil)
+	out := s.parseResources(names, proxy)
+	verif.Ensures("fresh-list", verif.Fresh(out))
+	verif.Ensures("proxy-untouched", proxy.VerifiedIdentity == verif.Old(func() *spiffe.Identity { return proxy.VerifiedIdentity }) &&
+		proxy.VerifiedIdentity.Namespace == verif.Old(func() string { return proxy.VerifiedIdentity.Namespace }) &&
+		proxy.VerifiedIdentity.ServiceAccount == verif.Old(func() string { return proxy.VerifiedIdentity.ServiceAccount }))
+}
+
+//verif:invariant (*SecretGen).parseResources 1
+func invParseResources(res []SecretResource, names []string, proxy *model.Proxy, rangeindex int) bool {
+	return rangeindex < len(names) && verif.Fresh(res) && proxy.Metadata != nil && proxy.VerifiedIdentity != nil
+}
+
+//verif:contract (*DiscoveryServer).authorize
+//verif:prop C11
+func ctAuthorize(s *DiscoveryServer, con *Connection, identities []string) {
+	verif.Requires("proxy-has-metadata", con == nil || con.proxy == nil || con.proxy.Metadata != nil)
+	err := s.authorize(con, identities)
+	if con == nil || con.proxy == nil {
+		return
+	}
+	proxy := con.proxy
+	was := verif.Old(func() *spiffe.Identity { return con.proxy.VerifiedIdentity })
+	// from the statement: "obtains configuration only as a proxy of the namespace and service account its
+	// credential proves" (that the identity is one of the credential's is checkConnectionIdentity's contract)
+	verif.Ensures("verified-identity-agrees-with-claims", proxy.VerifiedIdentity == was ||
+		(proxy.VerifiedIdentity != nil && err == nil &&
+			(proxy.ConfigNamespace == "" || proxy.VerifiedIdentity.Namespace == proxy.ConfigNamespace) &&
+			(proxy.Metadata.ServiceAccount == "" || proxy.VerifiedIdentity.ServiceAccount == proxy.Metadata.ServiceAccount)))
+	verif.Ensures("failure-verifies-nothing", err == nil || proxy.VerifiedIdentity == was)
 }
